@@ -960,6 +960,13 @@ func runTreeScenario(t *testing.T, tr *tracer, idx int, seed uint64, mode string
 			var racing [][]*apiResult
 			var ids []int
 			tr.line(kv.L("burst-begin"))
+			if r.Chance(1, 2) {
+				// a node closed on its own and changes still on their way when the root goes down
+				w.closeNode()
+				for j := inflight(1 + r.Intn(3)); j > 0; j-- {
+					w.srvEvent()
+				}
+			}
 			for _, n := range w.nodes {
 				if r.Chance(1, 2) {
 					racing = append(racing, w.apiProbe(n))
